@@ -9,6 +9,8 @@ using namespace vf;
 
 static Fields gen(Tape &t) {
   Fields f;
+  LongMode lm(t);
+  if (lm.on()) f.seti("long", 1);
   ops_to_fields(f, g_history(t, SEG_ANY, false, 8));
   // in a quarter of the histories every call goes through a custom memory manager whose k-th request of *each* call
   // (parses excepted) fails once: whatever a call then still returns as a success must satisfy the invariant like any other result
